@@ -800,6 +800,11 @@ impl Visitor for ScopeVisitor {
                 self.try_hoist();
             }
         }
+
+        // Right-hand sides without a matching target are still evaluated
+        for expression in expressions {
+            self.read_expression(expression);
+        }
     }
 
     fn visit_local_assignment(&mut self, local_assignment: &ast::LocalAssignment) {
